@@ -31,7 +31,7 @@ PROPS = {
                "robot zoo with dof in {5,6} (5-DOF robots have sign6 = 0) x pose families x J6 in {0,+-1,+-10,1e-300,2.5} / previous "
                "vectors with J6 in {0,+-2.5,6,0.3} x four entry points x bare / axial tool-base-frame stacks x with and without "
                "limits; hook-level inverse_intern_5_dof. non-trivial = at least one solution returned"),
-    "C07": cfg(20000, 200000, ["C07."],
+    "C07": cfg(20000, 200000, ["C07.", "C20.limits", "C20.unconstrained", "C20.rejects"],
                "exhaustive lattice (quick 15 degrees, thorough 5 degrees) over from,to,angle in [-720,720] degrees through the three "
                "constructors (new, from_degrees, new+update_range), six (from,to) pairs per line against every lattice angle; plus "
                "random reals incl. from==to, spans >= 2pi, narrow ranges, whole-turn shifted copies of an angle; compliant, filter "
